@@ -151,6 +151,24 @@ func stripPadding(l any) any {
 		c := *v
 		c.HopByHop = stripPadding(v.HopByHop).(*layers.IPv6HopByHop)
 		return &c
+	case *layers.DNS:
+		// The raw RDATA (Data/DataLength) of a record whose RDATA holds domain names is a slice of the original
+		// message and may contain compression pointers into it; the serializer writes names uncompressed, so the
+		// raw bytes cannot survive a new message layout. The decoded names are compared; the raw copy is not.
+		c := *v
+		strip := func(rs []layers.DNSResourceRecord) []layers.DNSResourceRecord {
+			out := append([]layers.DNSResourceRecord(nil), rs...)
+			for i := range out {
+				switch out[i].Type {
+				case layers.DNSTypeNS, layers.DNSTypeCNAME, layers.DNSTypePTR, layers.DNSTypeMX, layers.DNSTypeSOA, layers.DNSTypeSRV,
+					layers.DNSTypeMD, layers.DNSTypeMF, layers.DNSTypeMB, layers.DNSTypeMG, layers.DNSTypeMR, layers.DNSTypeMINFO, layers.DNSTypeNAPTR, layers.DNSTypeRRSIG:
+					out[i].Data, out[i].DataLength = nil, 0
+				}
+			}
+			return out
+		}
+		c.Answers, c.Authorities, c.Additionals = strip(v.Answers), strip(v.Authorities), strip(v.Additionals)
+		return &c
 	}
 	return l
 }
